@@ -93,6 +93,7 @@ type vfdNet struct {
 	hold        *vfdHold
 	nHeld       atomic.Int64
 	dropFrom    map[string]string // sender address -> bundle kind that is lost on its way out ("" = none)
+	dropLink    map[string]string // "from>to" -> bundle kind lost on that one directed link (echoes by third nodes still arrive)
 	lagStop     chan struct{}
 	maxLagNs    atomic.Int64 // worst lateness of a 5 ms timer since the last reset: is this box keeping time?
 	bundles     []*pdkg.DKGPacket // first bundles seen on the bus (only when keepBundles)
@@ -343,6 +344,12 @@ func (n *vfdNet) setSched(s vfdSched) {
 func (n *vfdNet) setSlow(s *vfdSlow) {
 	n.mu.Lock()
 	n.sched.Slow = s
+	n.mu.Unlock()
+}
+
+func (n *vfdNet) setDropLink(m map[string]string) {
+	n.mu.Lock()
+	n.dropLink = m
 	n.mu.Unlock()
 }
 
@@ -713,7 +720,7 @@ func (c *vfdClient) BroadcastDKG(_ context.Context, p net.Peer, in *pdkg.DKGPack
 	n.mu.Lock()
 	s := n.sched
 	dest := n.nodes[dst]
-	drop := n.dropBundles || (n.dropFrom != nil && n.dropFrom[c.from] == kind)
+	drop := n.dropBundles || (n.dropFrom != nil && n.dropFrom[c.from] == kind) || (n.dropLink != nil && n.dropLink[c.from+">"+dst] == kind)
 	if n.keepBundles && len(n.bundles) < 64 {
 		n.bundles = append(n.bundles, proto.Clone(in).(*pdkg.DKGPacket))
 	}
